@@ -5,7 +5,7 @@ From Coq Require Import List Bool Arith NArith ZArith String.
 From Coq.Strings Require Import Byte.
 From Verif.Base Require Import Bytes Outcome Str.
 From Verif.Model Require Import IE Codec Record SetB Msg Exporter Rfc7011.
-From Verif.Proofs Require Import SetB_lemmas Exporter_lemmas C08_lemmas Rfc_lemmas RfcData_lemmas.
+From Verif.Proofs Require Import SetB_lemmas Exporter_lemmas C08_lemmas Rfc_lemmas RfcData_lemmas C09_oracle.
 From Verif.Driver Require Import Show SetShow HistShow RfcCheck C02drv.
 Import ListNotations.
 Local Open Scope N_scope.
@@ -121,6 +121,17 @@ Proof.
     split; [left; discriminate|].
     repeat (constructor; [repeat split; vm_compute; reflexivity|]). constructor.
 Qed.
+
+(* The per-case oracle of the check (C02_holds_on: every successful call whose bytes were
+   reported in full returned their number, and for a set in scope the bytes satisfy rfc_demand -
+   the independent parser's reading equals the expectation built from the case) holds on the
+   model's own observation of EVERY case whose sets satisfy case_set_ok (Driver/RfcCheck.v: one
+   PrepareSet per set, values of data records are Go values of their elements' kinds). *)
+Theorem C02_oracle_on_model : forall c,
+  forallb (fun ds => case_set_ok (set_of (ops_of ds))) (hc_sends c) = true ->
+  C02_holds_on c (hist_model cur c) = true.
+Proof. exact c02_oracle_on_model. Qed.
+Print Assumptions C02_oracle_on_model.
 
 (* non-vacuity / concrete evidence for the data clause: one template, two records with a
    string at the 255 boundary, signed and enterprise-specific elements *)
